@@ -15,7 +15,7 @@ Record geom := mkGeom {
   g_ptype : N;           (* partition type byte *)
   g_lba : N;             (* first block of the partition *)
   g_part_blocks : N;     (* length of the partition in the table *)
-  (* BIOS parameter block *)
+  (* BPB (boot sector fields) *)
   g_total : N;           (* total sectors of the volume *)
   g_use16 : bool;        (* total stored in the 16-bit field (BPB_TotSec16) else in BPB_TotSec32 *)
   g_spc : N;             (* sectors per cluster *)
@@ -45,19 +45,17 @@ Definition n_clusters (g : geom) : N := (g_total g - spec_first_data g) / g_spc 
 (* "if CountofClusters < 4085 FAT12 else if CountofClusters < 65525 FAT16 else FAT32" *)
 Definition is_fat32 (g : geom) : bool := 65525 <=? n_clusters g.
 
-Definition pow2_upto_128 (x : N) : Prop :=
-  x = 1 \/ x = 2 \/ x = 4 \/ x = 8 \/ x = 16 \/ x = 32 \/ x = 64 \/ x = 128.
-Definition fat_partition_type (t : N) : Prop :=
-  t = 4 \/ t = 6 \/ t = 14 \/ t = 11 \/ t = 12.  (* 0x04 0x06 0x0E 0x0B 0x0C *)
+Definition pow2_upto_128 (x : N) : Prop := In x [1; 2; 4; 8; 16; 32; 64; 128].
+Definition fat_partition_type (t : N) : Prop := In t [4; 6; 14; 11; 12].  (* 0x04 0x06 0x0E 0x0B 0x0C *)
 
 Definition TWO32 : N := 4294967296.
 
 Definition valid_geom (g : geom) : Prop :=
   (* partition table *)
-  g_slot g < 4 /\ (g_status g = 0 \/ g_status g = 128) /\ fat_partition_type (g_ptype g) /\
+  g_slot g < 4 /\ In (g_status g) [0; 128] /\ fat_partition_type (g_ptype g) /\
   1 <= g_lba g /\ g_total g <= g_part_blocks g /\ g_lba g + g_part_blocks g <= TWO32 /\
   (* BPB *)
-  pow2_upto_128 (g_spc g) /\ 1 <= g_reserved g < 65536 /\ (g_nfats g = 1 \/ g_nfats g = 2) /\
+  pow2_upto_128 (g_spc g) /\ 1 <= g_reserved g < 65536 /\ In (g_nfats g) [1; 2] /\
   1 <= g_fat_size g < TWO32 /\ g_root_entries g < 65536 /\
   spec_first_data g <= g_total g /\ g_total g < TWO32 /\
   (g_use16 g = true -> g_total g < 65536) /\
